@@ -69,6 +69,10 @@ class Echo:
                     self.tok(k, d)
                 c = CX.Obj(child_cls)
                 c.attrs['n_tokens'] = len(toks) - before
+                c.attrs['tok_start'] = before
+                c.attrs['tok_end'] = len(toks)
+                # index of the child's first token that is not a spacer
+                c.attrs['tok_first'] = before + (1 if spaced else 0)
                 c.attrs['start_pos'] = 0
                 c.attrs['end_pos'] = 0
                 return c
@@ -79,11 +83,19 @@ class Echo:
             node = a[0]
             w = bound
             if isinstance(node, CX.Obj) and node.cls is child_cls:
-                n = node.attrs['n_tokens']
+                # the child echoes what is left of its own tokens: a parent
+                # may already have taken the blank tokens in front of it
                 pos = w.attrs['_pos']
+                if not node.attrs['tok_start'] <= pos <= \
+                        node.attrs['tok_first']:
+                    raise CX.PyRaise('AssertionError', (
+                        'child walked at token {} but it spans {}..{}'.format(
+                            pos, node.attrs['tok_start'],
+                            node.attrs['tok_end']),))
+                end = node.attrs['tok_end']
                 out = b''.join(bytes(_as_bytes(cx, cx.getattr(t, 'code')))
-                               for t in w.attrs['_tokens'][pos:pos + n])
-                w.attrs['_pos'] = pos + n
+                               for t in w.attrs['_tokens'][pos:end])
+                w.attrs['_pos'] = end
                 return [out]
             raise CX.CxError('_walk of a {}'.format(type(node).__name__))
 
@@ -223,6 +235,102 @@ def _if(n_elseif, has_else, use_do=False):
     return build
 
 
+def _short_if(has_else, else_stored):
+    """`if ( c ) body [else [body]]` in PICO-8 short form: the parser stores
+    the unwrapped condition; an `else` with nothing behind it on the line is
+    consumed but -- when else_stored is False -- leaves no pair in the node"""
+    def build(h):
+        h.tok(K, b'if')
+        h.tok(S, b'(')
+        e = h.child(E)
+        h.tok(S, b')')
+        pairs = [(e, h.child(BLK))]
+        if has_else:
+            h.tok(K, b'else')
+            if else_stored:
+                pairs.append((None, h.child(BLK)))
+        return {'exp_block_pairs': pairs, 'short_if': True}
+    return build
+
+
+def parser_drops_empty_else(ctx):
+    """Does the parser's short-if branch consume `else` without storing an
+    else pair on some path?  Read off Parser._stat: the statement that
+    appends the `(None, <else block>)` pair stands under a test with more to
+    it than `<else block> is not None`.  -> True / False / None (not found)"""
+    import ast
+    try:
+        f = ctx.model.func(PARSER + ':Parser._stat')
+    except Exception:
+        return None
+    found = None
+    for n in ast.walk(f.node):
+        if not isinstance(n, ast.If):
+            continue
+        for st in n.body:
+            if isinstance(st, ast.Expr) and isinstance(st.value, ast.Call) \
+                    and isinstance(st.value.func, ast.Attribute) and \
+                    st.value.func.attr == 'append' and st.value.args and \
+                    isinstance(st.value.args[0], ast.Tuple) and \
+                    len(st.value.args[0].elts) == 2 and \
+                    isinstance(st.value.args[0].elts[0], ast.Constant) and \
+                    st.value.args[0].elts[0].value is None and \
+                    isinstance(st.value.args[0].elts[1], ast.Name):
+                blk = st.value.args[0].elts[1].id
+                t = n.test
+                plain = isinstance(t, ast.Compare) and len(t.ops) == 1 and \
+                    isinstance(t.ops[0], ast.IsNot) and \
+                    isinstance(t.left, ast.Name) and t.left.id == blk and \
+                    isinstance(t.comparators[0], ast.Constant) and \
+                    t.comparators[0].value is None
+                if isinstance(t, ast.Name) and t.id == blk:
+                    continue        # truthiness of a node: not decided here
+                mentions = any(isinstance(x, ast.Name) and x.id == blk
+                               for x in ast.walk(t))
+                if not mentions:
+                    continue        # the long form: `if accept(else):`
+                found = (not plain) or bool(found)
+    return found
+
+
+def _expvalue(kind):
+    def build(h):
+        if kind == 'nil':
+            h.tok(K, b'nil')
+            return {'value': None}
+        if kind in ('true', 'false'):
+            h.tok(K, kind.encode())
+            return {'value': kind == 'true'}
+        if kind == 'name':
+            return {'value': h.tok(N, b'v')}
+        if kind == 'number':
+            return {'value': h.tok('TokNumber', b'12')}
+        if kind == 'string':
+            return {'value': h.tok('TokString', b'str')}
+        if kind == 'node':
+            return {'value': h.child(E2)}
+        # a parenthesised expression
+        h.tok(S, b'(')
+        v = h.child(E2)
+        h.tok(S, b')')
+        return {'value': v}
+    return build
+
+
+def _call(method, args):
+    def build(h):
+        f = {'exp_prefix': h.child(E)}
+        if method:
+            h.tok(S, b':')
+            f['methodname'] = h.tok(N, b'm')
+        if args == 'string':
+            f['args'] = h.tok('TokString', b'str')
+        else:
+            f['args'] = h.child([(S, b'('), (N, b'a'), (S, b')')])
+        return f
+    return build
+
+
 CASES = []
 for k in range(0, 4):
     for tr in (None, b',', b';'):
@@ -252,6 +360,19 @@ for n in range(0, 3):
         CASES.append(('StatIf', '{} elseif, else={}'.format(n, el),
                       _if(n, el)))
 CASES.append(('StatIf', 'if (c) do .. end', _if(0, False, use_do=True)))
+for kind in ('nil', 'true', 'false', 'name', 'number', 'string', 'node',
+             'parenthesised'):
+    CASES.append(('ExpValue', kind, _expvalue(kind)))
+for method in (False, True):
+    for args in ('string', 'node'):
+        CASES.append(('FunctionCallMethod' if method else 'FunctionCall',
+                      '{} argument'.format(args), _call(method, args)))
+CASES.append(('StatIf', 'short if (c) body', _short_if(False, False)))
+CASES.append(('StatIf', 'short if (c) body else body', _short_if(True, True)))
+# only when the parser can produce it (parser_drops_empty_else)
+EMPTY_ELSE = ('StatIf', 'short if (c) body else <nothing>: the parser '
+              'consumes the `else` and stores no pair for it',
+              _short_if(True, False))
 
 
 def report(ctx, res, rule='R-C09-agree'):
@@ -261,8 +382,16 @@ def report(ctx, res, rule='R-C09-agree'):
         res.vanished(rule, L + ':LuaASTEchoWriter', 'echo writer', str(e)[:80])
         return False
     by_type = {}
+    cases = list(CASES)
+    drops = parser_drops_empty_else(ctx)
+    if drops:
+        cases.append(EMPTY_ELSE)
+    elif drops is None:
+        res.info(rule, PARSER + ':Parser._stat', 'short-if with an empty '
+                 'else', 'the statement that stores the else pair of a '
+                 'short-if was not found: the shape is not evaluated')
     try:
-        for (nt, what, build) in CASES:
+        for (nt, what, build) in cases:
             m = ctx.model.lookup_method(ev.cls, '_walk_' + nt)
             if m is None:
                 res.vanished(rule, L + ':LuaASTEchoWriter._walk_' + nt,
